@@ -273,8 +273,7 @@ theorem record_move_removes_emptied_session (H : String → NameKey) (st st' : S
     (hlast : ∀ q ∈ st'.records, q.session ≠ r.session) : ∀ x ∈ st'.sessions, x.id ≠ r.session := by
   simp only [writeRecord, hrec] at hr
   repeat' split at hr
-  all_goals first | cases hr | skip
-  all_goals first | (exfalso; exact hmove ‹r.session = sid›) | skip
+  all_goals cases hr
   all_goals
     simp only [removeSession] at hlast ⊢
     split
